@@ -615,10 +615,17 @@ def post_c07(ctx, parsed, res):
             ks = ctx.by_key.get((graph, k))
             probs[k] = ctx.nodes[base][k].get("probability", 1.0)
         if len(released) != 1:
+            def _seq_of(sh, state):
+                for (sq, _t, st, _via) in sh.hist:
+                    if st == state:
+                        return sq
+                return None
+
+            done_seq = _seq_of(cs, "COMPLETED")
             kid_cancelled_before = any(
                 ctx.by_key.get((graph, k)) is not None and ctx.by_key[(graph, k)].state == "CANCELLED"
-                and ctx.by_key[(graph, k)].cancel_time is not None and cs.finish_time is not None
-                and ctx.by_key[(graph, k)].cancel_time < cs.finish_time for k in kids)
+                and _seq_of(ctx.by_key[(graph, k)], "CANCELLED") is not None and done_seq is not None
+                and _seq_of(ctx.by_key[(graph, k)], "CANCELLED") < done_seq for k in kids)
             if len(released) == 0 and kid_cancelled_before:
                 # a policy had cancelled a child before the conditional completed; nothing is
                 # left to choose from (a consequence of the cancellation, C06's business)
